@@ -1357,9 +1357,10 @@ func (e *nmEngine) block(pending []*nmTx, dt uint64) {
 		case p.exp == nmMustSucceed && !took:
 			// only ticks are obliged to succeed (C06: "succeeds iff ...")
 			if m.resizeSinceTick {
-				r.Violation("C08/tick-after-resize-refused", "", "%s by %s after an accepted updateSnapshotCount (count now %d): %s", bt.desc, signerNames(bt.signers), m.n, aer.FaultException)
+				r.ViolationSynced("C08/tick-after-resize-refused", "", "%s by %s after an accepted updateSnapshotCount (count now %d): %s", bt.desc, signerNames(bt.signers), m.n, aer.FaultException)
 			} else {
-				r.Violation("C06/tick-refused", "", "%s by %s (epoch %d, subscribers %v): %s", bt.desc, signerNames(bt.signers), m.epoch, m.subs, aer.FaultException)
+				// (a refusal changes nothing: for C07/C08 the run goes on)
+				r.ViolationSynced("C06/tick-refused", "", "%s by %s (epoch %d, subscribers %v): %s", bt.desc, signerNames(bt.signers), m.epoch, m.subs, aer.FaultException)
 			}
 		case p.exp == nmMaySucceed && !took && outcome != "gasfault":
 			// no statement of C06–C08 obliges candidate changes to succeed; counted
